@@ -49,6 +49,7 @@ func c08Scenarios() []c08Scenario {
 		{name: "insert||merge", writers: [][]model.Act{{{Op: "insert", W: []model.Write{a(7), s("n", false)}}}, {put(R0, am(1), s("x", true))}}},
 		{name: "two-inserts||delete", writers: [][]model.Act{{{Op: "insert", W: []model.Write{a(7)}}, {Op: "insert", W: []model.Write{a(8)}}}, {{Op: "del", Off: R0}}}},
 		{name: "three-writers", writers: [][]model.Act{{put(R0, a(7), b(1))}, {put(R0, a(5))}, {put(R0, b(2)), put(R1, am(1))}}},
+		{name: "four-writers", writers: [][]model.Act{{put(R0, a(7), b(1))}, {put(R0, am(5))}, {put(R0, b(2)), put(R1, am(1))}, {put(R1, a(3), b(4)), {Op: "insert", W: []model.Write{a(1)}}}}},
 		{name: "commit||rollback", writers: [][]model.Act{{put(R0, a(7), b(1))}, {put(R0, a(99)), {Op: "insert", W: []model.Write{a(1)}}}}, fails: []bool{false, true}},
 		// the insert reserves the first offset of a block whose columns do not exist yet
 		{name: "insert-opening-a-new-block||put", full: true, writers: [][]model.Act{{{Op: "insert", W: []model.Write{a(7), s("n", false)}}}, {put(R0, a(9), b(1))}}},
@@ -322,17 +323,20 @@ func init() {
 			if tier == "quick" {
 				return map[string]any{"preemption_bound": "2 (snapshot + 2 writers), 1 (snapshot + 3 writers; the 16K-row scenario)", "threads": "snapshot + 2-3 writers"}
 			}
-			return map[string]any{"preemption_bound": "3 (snapshot + 2 writers), 2 (snapshot + 3 writers; the 16K-row scenario)", "threads": "snapshot + 2-3 writers"}
+			return map[string]any{"preemption_bound": "3 (snapshot + 2 writers), 2 (snapshot + 3 writers; the 16K-row scenario), 1 (snapshot + 4 writers)", "threads": "snapshot + 2-4 writers"}
 		},
 		Units: func(tier string) []eng.Unit {
 			var scs []scenario
 			for _, sc := range c08Scenarios() {
 				sc := sc
+				if len(sc.writers) > 3 && tier == "quick" {
+					continue // (snapshot + 4 writers: thorough tier only)
+				}
 				b := 2
 				if len(sc.writers) > 2 || sc.full {
 					b = 1 // (full: 16K rows are built, snapshotted and restored in every execution)
 				}
-				if tier != "quick" {
+				if tier != "quick" && len(sc.writers) <= 3 {
 					b++
 				}
 				scs = append(scs, scenario{sc.name, b, sc.instance})
